@@ -1,5 +1,6 @@
 """C09 -- writing and reading back any bound preserves its behaviour."""
-from ..persist import (persist_classes, rule_P1_P2, rule_P3, rule_P4_bound, rule_P5)
+from ..persist import (persist_classes, rule_P1_P2, rule_P3, rule_P4_bound, rule_P5,
+                       rule_P7)
 
 LEVEL_TEXT = ('Static agreement of the writer, updater and reader tables extracted from the '
               'HDF5 code of the 8 persistable classes, plus definite-assignment analysis of '
@@ -19,6 +20,7 @@ def run(ctx):
         ctors = [cls.methods[m] for m in ('compute', 'read', 'train') if m in cls.methods]
         rule_P3(ctx, cls, ctors)
         rule_P5(ctx, cls.name, r, obj)
+        rule_P7(ctx, cls, w, r)
         if u is not None:
             rule_P4_bound(ctx, cls)
     ctx.floor('P1', 40, 'key obligations')
@@ -26,6 +28,7 @@ def run(ctx):
     ctx.floor('P3', 60, 'definite-assignment obligations')
     ctx.floor('P4', 8, 'incremental-update obligations')
     ctx.floor('P5', 6, 'dispatch obligations')
+    ctx.floor('P7', 4, 'optional-member obligations')
     ctx.assumptions += ['h5py round-trips floats and arrays exactly',
                         'the sklearn attribute sweep of NeuralNetworkEmulator.write/read '
                         '(dynamic keys on both sides) reconstitutes a network']
